@@ -828,3 +828,121 @@ mod tests {
         tower::ServiceExt::boxed_clone(tower::service_fn(handle))
     }
 }
+
+/// Verification wrappers (cfg `bmwill_anemo_verif`): lets a simulator drive the real active-peer
+/// set directly with real connections. No behaviour of its own.
+#[cfg(bmwill_anemo_verif)]
+pub(crate) mod verif_hooks {
+    use super::{ActivePeers, ActivePeersInner};
+    use crate::{
+        config::EndpointConfig,
+        connection::Connection,
+        endpoint::Endpoint,
+        types::{DisconnectReason, PeerEvent},
+        ConnectionOrigin, PeerId, Result,
+    };
+    use std::sync::Arc;
+    use tokio::sync::broadcast;
+
+    pub fn tie_break(
+        own_peer_id: &PeerId,
+        remote_peer_id: &PeerId,
+        existing_origin: ConnectionOrigin,
+        new_origin: ConnectionOrigin,
+    ) -> bool {
+        ActivePeersInner::simultaneous_dial_tie_breaking(
+            own_peer_id,
+            remote_peer_id,
+            existing_origin,
+            new_origin,
+        )
+    }
+
+    #[derive(Clone)]
+    pub struct DirectConnection(Connection);
+
+    impl DirectConnection {
+        pub fn peer_id(&self) -> PeerId {
+            self.0.peer_id()
+        }
+        pub fn origin(&self) -> ConnectionOrigin {
+            self.0.origin()
+        }
+        pub fn stable_id(&self) -> usize {
+            self.0.stable_id()
+        }
+        /// `Some(reason)` once the underlying QUIC connection has been closed or lost.
+        pub fn close_reason(&self) -> Option<String> {
+            self.0.close_reason_for_verif()
+        }
+    }
+
+    pub struct DirectEndpoint(Arc<Endpoint>);
+
+    impl DirectEndpoint {
+        /// Must be called right after `verif::set_next_transport`.
+        pub fn new(
+            server_name: &str,
+            private_key: [u8; 32],
+            transport_config: quinn::TransportConfig,
+        ) -> Result<Self> {
+            let config = EndpointConfig::builder()
+                .transport_config(transport_config)
+                .server_name(server_name)
+                .private_key(private_key)
+                .build()?;
+            let socket = std::net::UdpSocket::bind((std::net::Ipv4Addr::LOCALHOST, 0))?;
+            Ok(Self(Arc::new(Endpoint::new(config, socket)?)))
+        }
+        pub fn peer_id(&self) -> PeerId {
+            self.0.peer_id()
+        }
+        pub async fn connect(&self, address: std::net::SocketAddr) -> Result<DirectConnection> {
+            Ok(DirectConnection(self.0.connect(address)?.await?))
+        }
+        pub async fn accept(&self) -> Result<DirectConnection> {
+            let connecting = self
+                .0
+                .accept()
+                .await
+                .ok_or_else(|| anyhow::anyhow!("endpoint closed"))?;
+            Ok(DirectConnection(connecting.await?))
+        }
+        pub fn close(&self) {
+            self.0.close()
+        }
+    }
+
+    #[derive(Clone)]
+    pub struct DirectPeers(ActivePeers);
+
+    impl DirectPeers {
+        pub fn new(channel_size: usize) -> Self {
+            Self(ActivePeers::new(channel_size))
+        }
+        /// Returns true if the connection was registered (a request handler would be started).
+        pub fn add(&self, own_peer_id: &PeerId, connection: &DirectConnection) -> bool {
+            self.0.add(own_peer_id, connection.0.clone()).is_some()
+        }
+        pub fn remove(&self, peer_id: &PeerId, reason: DisconnectReason) {
+            self.0.remove(peer_id, reason)
+        }
+        pub fn remove_with_stable_id(
+            &self,
+            peer_id: PeerId,
+            stable_id: usize,
+            reason: DisconnectReason,
+        ) {
+            self.0.remove_with_stable_id(peer_id, stable_id, reason)
+        }
+        pub fn subscribe(&self) -> (broadcast::Receiver<PeerEvent>, Vec<PeerId>) {
+            self.0.subscribe()
+        }
+        pub fn peers(&self) -> Vec<PeerId> {
+            self.0.peers()
+        }
+        pub fn get_stable_id(&self, peer_id: &PeerId) -> Option<usize> {
+            self.0.get(peer_id).map(|c| c.stable_id())
+        }
+    }
+}
